@@ -214,6 +214,9 @@ class AbsExec:
                 return bool(v) if op.get("ty") == "bool" else v
             if "tyconst" in op and len(getattr(self, "generic_ints", [])) == 1:
                 return self.generic_ints[0]
+            if "fn" in op:
+                from .terms import FnKey
+                return ("fnref", FnKey(op["fn"]))
             if hasattr(self.domain, "const"):
                 return self.domain.const(self, op)
             return TOP
@@ -319,6 +322,8 @@ class AbsExec:
         """Explore all paths; returns list of (return value, frame). Loops whose continuation cannot be decided from
         constants are re-run with every local written in the loop forgotten at the loop head (sound over-approximation)."""
         heads = self.abstract_heads()
+        if getattr(self, "root_path", None) is None and getattr(self, "depth", 0) == 0:
+            self.root_path = body.rec["path"]
         for _ in range(64):
             results = []
             fr = Frame(body, [_clone_val(a, None, None) for a in args])
@@ -373,14 +378,19 @@ class AbsExec:
                 if val is NotImplemented:
                     val = int_builtin(self, fk, args)
                 if val is NotImplemented:
+                    val = closure_builtin(self, fk, args, t, fr)
+                if val is NotImplemented:
                     cb = self.F.bodies.get(fk.d)
-                    if cb is not None and self.inline(fk.d):
+                    stack = getattr(self, "inline_stack", ())
+                    if cb is not None and self.inline(fk.d) and fk.d not in stack and fk.d != getattr(self, "root_path", None):
                         sub = AbsExec(self.F, self.domain, self.max_steps, self.max_paths, self.inline)
                         sub.steps = self.steps
                         sub.depth = getattr(self, "depth", 0) + 1
                         import re as _re
                         gi = [int(x) for x in _re.findall(r"<(\d+)(?:_usize)?>", fk.i)] or [int(x) for x in (fk.get("args") or []) if isinstance(x, str) and x.isdigit()]
                         sub.generic_ints = gi or getattr(self, "generic_ints", [])
+                        sub.inline_stack = stack + (fk.d,)
+                        sub.root_path = getattr(self, "root_path", None)
                         if sub.depth > 12:
                             raise FactsError("inlining depth exceeded at %s" % fk.d)
                         rs = sub.run_shared(cb, args)
@@ -395,6 +405,8 @@ class AbsExec:
                                         and fr.body.locals[aop["place"]["l"]]["ty"].startswith("&mut"):
                                     self._write_into(av.frame, av.local, list(av.proj), self.domain.havoc_value(self, fr.body.locals[aop["place"]["l"]]["ty"]) if hasattr(self.domain, "havoc_value") else TOP)
                         val = vals[0] if vals and all(_same(v, vals[0]) for v in vals) else (self.domain.join(self, vals) if hasattr(self.domain, "join") and vals else TOP)
+                    elif cb is not None and (fk.d in stack or fk.d == getattr(self, "root_path", None)) and hasattr(self.domain, "recursive_call"):
+                        val = self.domain.recursive_call(self, fk, args, t, fr)
                     else:
                         val = TOP
                         # an unmodelled callee may write through every `&mut` it receives
@@ -646,3 +658,86 @@ def same_module_inline(F, root_path):
         return ((b.rec.get("span") or {}).get("file")) if b is not None else None
     m = file_of(root_path)
     return lambda d: m is not None and file_of(d) == m
+
+
+def call_value(ex, f, fargs):
+    """Apply a closure / fn item value to abstract arguments inside the current analysis; → joined result value."""
+    if isinstance(f, Ref):
+        f = deref_value(ex, f)
+    body = None
+    args = None
+    if isinstance(f, Adt) and isinstance(f.name, str) and f.name.startswith("closure:"):
+        body = ex.F.bodies.get(f.name[len("closure:"):])
+        args = [f] + list(fargs)
+    elif isinstance(f, tuple) and len(f) == 2 and f[0] == "fnref":
+        fk = f[1]
+        r = ex.domain.call(ex, fk, list(fargs), {"span": {}}, None) if False else NotImplemented
+        body = ex.F.bodies.get(fk.d)
+        args = list(fargs)
+    if body is None:
+        return TOP
+    sub = AbsExec(ex.F, ex.domain, ex.max_steps, ex.max_paths, ex.inline)
+    sub.steps = ex.steps
+    sub.depth = getattr(ex, "depth", 0) + 1
+    sub.generic_ints = getattr(ex, "generic_ints", [])
+    sub.inline_stack = getattr(ex, "inline_stack", ())
+    sub.root_path = getattr(ex, "root_path", None)
+    if sub.depth > 12:
+        raise FactsError("closure nesting too deep")
+    rs = sub.run_shared(body, args)
+    ex.steps = sub.steps
+    if hasattr(ex.domain, "select_inline_results"):
+        rs = ex.domain.select_inline_results(ex, rs)
+    vals = [r[0] for r in rs]
+    if not vals:
+        return TOP
+    if all(_same(v, vals[0]) for v in vals):
+        return vals[0]
+    return ex.domain.join(ex, vals) if hasattr(ex.domain, "join") else TOP
+
+
+def closure_builtin(ex, fk, args, term, fr):
+    """Option / Result / iterator combinators that take a closure, on values whose variant (or literal iteration space) is known."""
+    n, d = fk.name, fk.d
+    if not args:
+        return NotImplemented
+    v0 = deref_value(ex, args[0])
+    if isinstance(v0, Adt) and v0.name in ("core::option::Option", "core::result::Result") and isinstance(v0.variant, str):
+        good = v0.variant in ("Some", "Ok")
+        if n == "map" and len(args) == 2:
+            return Adt(v0.name, v0.variant, [call_value(ex, args[1], [v0.fields[0]])]) if good else v0
+        if n == "and_then" and len(args) == 2:
+            return call_value(ex, args[1], [v0.fields[0]]) if good else v0
+        if n == "map_err" and len(args) == 2 and v0.name == "core::result::Result":
+            return v0 if good else Adt(v0.name, v0.variant, [call_value(ex, args[1], list(v0.fields[:1]))])
+        if n == "unwrap_or_else" and len(args) == 2:
+            return v0.fields[0] if good else call_value(ex, args[1], [] if v0.name == "core::option::Option" else list(v0.fields[:1]))
+        if n == "ok_or_else" and len(args) == 2 and v0.name == "core::option::Option":
+            return Adt("core::result::Result", "Ok", [v0.fields[0]]) if good else Adt("core::result::Result", "Err", [call_value(ex, args[1], [])])
+        if n == "ok_or" and len(args) == 2 and v0.name == "core::option::Option":
+            return Adt("core::result::Result", "Ok", [v0.fields[0]]) if good else Adt("core::result::Result", "Err", [args[1]])
+        if n == "ok" and v0.name == "core::result::Result":
+            return Adt("core::option::Option", "Some", [v0.fields[0]]) if good else Adt("core::option::Option", "None", [])
+    if isinstance(v0, Adt) and v0.name == "core::option::Option" and isinstance(v0.variant, tuple) and v0.variant and v0.variant[0] == "?" and n == "map" and len(args) == 2 and v0.fields:
+        # Some-ness still depends on an abstract predicate: the payload is mapped, the predicate stays
+        return Adt(v0.name, v0.variant, [call_value(ex, args[1], [v0.fields[0]])])
+    it = _as_iter(v0) if not isinstance(v0, CoreIter) else v0
+    if it is not None and (d.startswith("core::iter") or "Iterator" in d):
+        rest = it.items[it.pos:]
+        if n == "fold" and len(args) == 3:
+            acc = args[1]
+            for x in rest:
+                acc = call_value(ex, args[2], [acc, x])
+            return acc
+        if n == "for_each" and len(args) == 2:
+            for x in rest:
+                call_value(ex, args[1], [x])
+            return Tup([])
+        if n == "map" and len(args) == 2:
+            return CoreIter([call_value(ex, args[1], [x]) for x in rest])
+        if n == "zip" and len(args) == 2:
+            other = deref_value(ex, args[1])
+            o = _as_iter(other) if not isinstance(other, CoreIter) else other
+            if o is not None:
+                return CoreIter([Tup([a, b]) for a, b in zip(rest, o.items[o.pos:])])
+    return NotImplemented
